@@ -127,6 +127,7 @@ from .iter_elim import (
     Ctx,
     Plan,
     SubstNames,
+    substitution_is_captured,
     clone,
     comp_binding_is_pairs,
     destructure_subst,
@@ -248,6 +249,10 @@ class _ZipElimInstance(DefaultTransformVisitor):
         # rewritten too, then substitute.
         new_elt = self._visit_expr(e.elt, ctx)
         if subst:
+            if substitution_is_captured(subst, new_elt):
+                # a nested comprehension re-binds a name the inlined reads use
+                # (the index, or a source): leave this one for the backend
+                return super()._visit_list_comp(e, ctx)
             new_elt = SubstNames(subst)._visit_expr(new_elt, ctx)
         return ListComp(new_targets, new_iterables, new_elt, e.loc)
 
